@@ -114,6 +114,14 @@ impl<'a> FullnameSerializer<'a> {
     //     }
     // }
 
+    // whether an unprefixed element name would fall into a default namespace
+    pub(crate) fn has_default_namespace(&self) -> bool {
+        self.top()
+            .all_namespaces
+            .iter()
+            .any(|(p, ns)| *p == self.xot.empty_prefix() && *ns != self.xot.no_namespace())
+    }
+
     // this is handy for the HTML rendering system, which insists some namespaces
     // should be in the empty prefix (xhtml, mathml, svg)
     pub(crate) fn add_empty_prefix(&mut self, namespace_id: NamespaceId) {
